@@ -12,7 +12,7 @@ class C07(HistCheck):
     RULE = ("all algorithms (DE, NSDE, GDE3, GDE3MNN, GDE32NN, GDE3P, NSDE-R) driven by ask-and-tell for 4 generations, population sizes n_parents+{1,2,4,7}; per generation: "
             "number of offspring, evaluator.n_eval, population size, object identities, stored F/G re-computed from stored X and compared bitwise, snapshots of every "
             "individual before/after ask and tell; the mating (ask) and the replacement/survival (tell) are compared with the model; distinct by hash"
-            "; 30% of NSDE/GDE3 cases use the algorithm's default survival object, 30% of all cases run after a default-constructed algorithm of the same class was stepped on another (constrained <-> unconstrained) problem in the same process; one case in four or five is a multi-feature scenario taken in turn and run in a process of its own (the algorithm's default survival object after a run on an unconstrained problem, now on a problem with 20-80% feasible points; constraint-ranking or default survival with a small feasible region reached one member at a time; single-objective DE with a minimal population on a coarse plateau, 8 generations; constraint-ranking survival with two constraints and at most 30% feasible points; the dither range as one shared float array)")
+            "; 30% of NSDE/GDE3 cases use the algorithm's default survival object, 30% of all cases run after a default-constructed algorithm of the same class was stepped on another (constrained <-> unconstrained) problem in the same process; one case in four or five is a multi-feature scenario taken in turn and run in a process of its own (the algorithm's default survival object after a run on an unconstrained problem, now on a problem with 20-80% feasible points; constraint-ranking or default survival with a small feasible region reached one member at a time; single-objective DE with a minimal population on a coarse plateau, 8 generations; constraint-ranking survival with two constraints and at most 30% feasible points; the dither range as one shared float array; an objective that is +inf on part of the box (cd / ce); advance_after_initial_infill=False); 15% of the two-objective cd / ce cases have such an infinite region and 12% of the DE cases that flag")
     ASSUMPTIONS = ["'nothing alters an individual after evaluation' is a property of the functional model and an observation (snapshots) on CPython objects"]
 
 
